@@ -30,6 +30,18 @@ def scenarios(tier):
             ["x1", "x2", "y"], ["x1", "x2", "y"])
     L.append((SC.scn("two-exits-then-locked-j3", tw, ["redo --no-log y", "redo --no-log -j3 x1 x2 y"],
                      visible=SC.TOKENS + ["lock-try"]), 1 if q else 2))
+    # a sub-redo that waited for ANOTHER invocation's lock (and gave its token back meanwhile) needs a token again when the
+    # lock is free -- at a moment when the redo above it has started all it had to start and only waits for its children:
+    # that one must not sit on the only token (-j1, no log follower that could lend one)
+    sw = _W("starve", {"s": ["0", "1"]},
+            {"L.do": [_S(deps=["s"], sync=(("start", "set", "L-started"), ("mid", "wait", "d-done")))],
+             "c.do": [_S(deps=["L"], sync=(("start", "wait", "L-started"),))],
+             "d.do": [_S(deps=["s"], out="file", sync=(("end", "set", "d-done"),))],
+             "h.do": [_S(deps=["c", "d"])]},
+            ["h", "c", "d", "L"], ["h"])
+    L.append((SC.scn("sub-redo-back-from-a-foreign-lock-j1", sw,
+                     [{"name": "T0", "argv": ["redo", "--no-log", "L"]}, {"name": "T1", "argv": ["redo", "--no-log", "-j1", "h"]}],
+                     visible=SC.TOKENS + ["lock-try"]), 1 if q else 2))
     L.append((SC.scn("cross-src-j2", w["cross-src"], ["redo --no-log -j2 p q"], visible=SC.TOKENS + ["lock-try"]), 1 if q else 2))
     # a script that wrecks the place of its own target (its parent directory becomes a regular file) while a sibling job is
     # still running: that job fails -- redo itself must neither abort nor abandon the sibling
